@@ -368,7 +368,8 @@ def _work(item):
                     bed.guard_seconds = FAST_GUARD
             status, info = evaluate(bed, mut, seen)
             out = info['out']
-            st.case((bed_name, chan, data))
+            st.case((bed_name, chan, data), sample=({'bed': bed_name, 'frame': enc_frames([mut])[0], 'status': status} if st.evaluations % 997 == 0 else None),
+                    nontrivial=bool(out.replies or out.excs or out.raised or status not in ('ok', 'ok_merged')))
             st.count('frames_injected', len(data) if isinstance(data, (tuple, list)) else 1)
             st.count('loop_steps', out.steps)
             oc = (bed_name, reply_class(out), tuple(sorted(set(out.excs)))[:3], status if status != 'fail_seen' else 'fail')
@@ -553,7 +554,7 @@ def run(ctx: core.Context) -> int:
         ctx,
         LEVEL,
         rule='one case = one hostile frame (or short frame sequence) injected into a live connection and followed by the '
-        "protocol's reference request; distinct = distinct (bed, channel, bytes); outcome_classes = distinct (reply class, "
+        "protocol's reference request; distinct_nontrivial = distinct (bed, channel, bytes) that made the victim react (a reply, an exception raised anywhere in bumble, a disconnect or a failure); outcome_classes = distinct (reply class, "
         'escaped exception sites, verdict) tuples observed',
         assumptions=[
             'virtual link: frames are delivered intact and in order; the attacker is a raw injector on a real HCI/ACL path',
